@@ -65,17 +65,17 @@ def replay_fixed(rec, ctx, np):
             g2 = call(fwd, method, f2.copy(), ph, z, out, shift)
             a, b = (2 - 1j), (0.5 + 3j)
             gl = call(fwd, method, a * f1 + b * f2, ph, z, out, shift)
-            if float(np.abs(gl - (a * g1 + b * g2)).max()) > tolv:
-                msgs.append(('linearity', 'f(a x + b y) != a f(x) + b f(y) by %.3g' % float(np.abs(gl - (a * g1 + b * g2)).max())))
+            if float(core.maxabs(gl - (a * g1 + b * g2))) > tolv:
+                msgs.append(('linearity', 'f(a x + b y) != a f(x) + b f(y) by %.3g' % float(core.maxabs(gl - (a * g1 + b * g2)))))
             for pr, pc in EMBEDS:
                 big = fttools.pad2d(f1, out_shape=(r['n'] + pr, c['n'] + pc))
                 ge = call(fwd, method, big, ph, z, out, shift)
-                if ge.shape != g1.shape or float(np.abs(ge - g1).max()) > tolv:
-                    msgs.append(('embedding:+%d,+%d' % (pr % 2, pc % 2), 'embedding in %s changes the output by %.3g' % (big.shape, float(np.abs(ge - g1).max()) if ge.shape == g1.shape else -1)))
+                if ge.shape != g1.shape or float(core.maxabs(ge - g1)) > tolv:
+                    msgs.append(('embedding:+%d,+%d' % (pr % 2, pc % 2), 'embedding in %s changes the output by %.3g' % (big.shape, float(core.maxabs(ge - g1)) if ge.shape == g1.shape else -1)))
                     break
             gt = call(fwd, method, f1.T.copy(), ph, z, (out[1], out[0]), (shift[1], shift[0]))
-            if gt.shape != g1.T.shape or float(np.abs(gt - g1.T).max()) > tolv:
-                msgs.append(('transpose', 'transposed call is not the transposed output (%.3g)' % (float(np.abs(gt - g1.T).max()) if gt.shape == g1.T.shape else -1)))
+            if gt.shape != g1.T.shape or float(core.maxabs(gt - g1.T)) > tolv:
+                msgs.append(('transpose', 'transposed call is not the transposed output (%.3g)' % (float(core.maxabs(gt - g1.T)) if gt.shape == g1.T.shape else -1)))
         except Exception as ex:
             msgs = [('raised', 'raised %s: %s' % (type(ex).__name__, ex))]
         ctx.replayed(1, key=(name, method, json.dumps(rec['args']), rec['dir']))
@@ -116,22 +116,22 @@ def replay_mask(rec, ctx, np):
                 exp = (Er.conj().T @ (mk * (Er @ f @ Ec.T)) @ Ec.conj()) * nsq
                 got = P.to_fpm_and_back(f.copy(), float(ph['dxin']), float(z), float(ph['lam']), mk, float(ph['dxout']), shift=shift, method=method)
                 res[kind] = got
-                if got.shape != exp.shape or float(np.abs(got - exp).max()) > 2e-9 * S:
-                    msgs.append(('value:%s-mask' % kind, 'differs from T^H diag(mask) T by %.3g' % (float(np.abs(got - exp).max()) if got.shape == exp.shape else -1)))
-                if kind == 'ones' and whole_band and float(np.abs(got - f).max()) > 2e-9 * S:
-                    msgs.append(('allpass', 'all-pass mask over the whole band does not return the field (%.3g)' % float(np.abs(got - f).max())))
+                if got.shape != exp.shape or float(core.maxabs(got - exp)) > 2e-9 * S:
+                    msgs.append(('value:%s-mask' % kind, 'differs from T^H diag(mask) T by %.3g' % (float(core.maxabs(got - exp)) if got.shape == exp.shape else -1)))
+                if kind == 'ones' and whole_band and float(core.maxabs(got - f)) > 2e-9 * S:
+                    msgs.append(('allpass', 'all-pass mask over the whole band does not return the field (%.3g)' % float(core.maxabs(got - f))))
                 if kind == 'real':
                     comp = P.to_fpm_and_back(f.copy(), float(ph['dxin']), float(z), float(ph['lam']), 1 - mk, float(ph['dxout']), shift=shift, method=method)
-                    if float(np.abs(got + comp - res['ones']).max()) > 2e-9 * S:
-                        msgs.append(('babinet', 'mask + complement != unmasked (%.3g)' % float(np.abs(got + comp - res['ones']).max())))
+                    if float(core.maxabs(got + comp - res['ones'])) > 2e-9 * S:
+                        msgs.append(('babinet', 'mask + complement != unmasked (%.3g)' % float(core.maxabs(got + comp - res['ones']))))
                     if not shifted:
                         w = P.Wavefront(f.copy(), float(ph['lam']), float(ph['dxin']))
                         wb = w.to_fpm_and_back(float(z), mk, float(ph['dxout']), method=method)
-                        if float(np.abs(wb.data - got).max()) > 1e-12 * S:
+                        if float(core.maxabs(wb.data - got)) > 1e-12 * S:
                             msgs.append(('Wavefront', 'Wavefront.to_fpm_and_back differs from the function'))
                         bab = w.babinet(float(z), None, mk, float(ph['dxout']), method=method)
                         # babinet(fpm) = field - to_fpm_and_back(1 - fpm)
-                        if float(np.abs(bab.data - (f - comp)).max()) > 2e-9 * S:
+                        if float(core.maxabs(bab.data - (f - comp))) > 2e-9 * S:
                             msgs.append(('Wavefront.babinet', 'babinet != field - to_fpm_and_back(1-mask)'))
         except Exception as ex:
             msgs.append(('raised', 'raised %s: %s' % (type(ex).__name__, ex)))
